@@ -3,29 +3,30 @@
    that Select sends, for every hint record, matcher list, regex oracle, layout and database name, is bounded by
    the hint window and carries type IN (2,0); the label fetch of labelsGetter has a covering date range and no
    type conjunct.  The raw path reads [Start, End + 1 ms) (the closed millisecond window, fix f155c1f), the
-   down-sampled path Start < t <= End. *)
+   down-sampled path Start <= t <= End in nanoseconds (fix 24e9bdc; metrics_15s rows are
+   stamped on 15-second boundaries). *)
 From Coq Require Import List ZArith NArith String Ascii Bool Lia.
 From Qryn Require Import lib.Strs lib.CivilDate model.Sql model.SqlRender model.Logql model.LogqlPlan model.PromSel model.Scans
   proofs.ScansProofs proofs.ScansPlanProofs.
 Import ListNotations.
 Open Scope list_scope.
 
-(* what the proofs need of the window a Prometheus context is judged against: the planners write
-   timestamp_ns > From and timestamp_ns <= To *)
-Record pwin_ok (ds : bool) (c : pctx) (W : window) : Prop := {
+(* what the proofs need of the window a Prometheus context is judged against: the raw planner writes
+   timestamp_ns >= From and timestamp_ns < To + 1 ms, the down-sampled one timestamp_ns >= From and timestamp_ns <= To *)
+Record pwin_ok (raw ds : bool) (c : pctx) (W : window) : Prop := {
   pk_type : w_type W = api_type c;
   pk_lo : (w_lo_min W <= c_from_ns c <= w_from W)%Z;                       (* raw path: timestamp_ns >= From *)
-  pk_hi : (w_to W <= c_to_ns c + 1000000 <= w_hi_max W + 1)%Z;             (* raw path: timestamp_ns < To + 1 ms *)
-  pk_ds : ds = true -> (c_from_ns c + 1 <= w_from W /\ w_to W <= c_to_ns c + 1)%Z   (* down-sampled path: > From, <= To *)
+  pk_hi : raw = true -> (w_to W <= c_to_ns c + 1000000 <= w_hi_max W + 1)%Z;   (* raw path: timestamp_ns < To + 1 ms *)
+  pk_ds : ds = true -> (w_to W <= c_to_ns c + 1 <= w_hi_max W + 1)%Z            (* down-sampled path: timestamp_ns <= To *)
 }.
 
 Section PROM.
   Variable info : string -> tinfo.
   Variable c : pctx.
   Variable W : window.
-  Variable ds : bool.
+  Variable raw ds : bool.
   Hypothesis Htab : ctx_tables info c.
-  Hypothesis Hwin : pwin_ok ds c W.
+  Hypothesis Hwin : pwin_ok raw ds c W.
   Notation Q := (Q info W false).
   Notation good := (good Q).
   Notation egood := (egood Q).
@@ -55,12 +56,12 @@ Section PROM.
 
   (* the samples skeleton of InitClickhousePlanner *)
   Lemma prom_raw_own t cols :
-    info t = data_typed ->
+    raw = true -> info t = data_typed ->
     Forall Q (own_scan (and_where [Ge (Id "samples.timestamp_ns") (IntV (c_from_ns c));
                                     Lt (Id "samples.timestamp_ns") (IntV (c_to_ns c + 1000000)); get_types c]
                           (set_from (SimpleCol t "samples") (set_cols cols empty_select)))).
   Proof.
-    intros Hi. unfold and_where, SimpleCol. fields_all. unfold And. rewrite conjs_and.
+    intros Hraw Hi. unfold and_where, SimpleCol. fields_all. unfold And. rewrite conjs_and.
     set (d1 := Ge (Id "samples.timestamp_ns") (IntV (c_from_ns c))).
     set (d2 := Lt (Id "samples.timestamp_ns") (IntV (c_to_ns c + 1000000))).
     cbn [flat_map]. rewrite !conjs_other by (subst d1 d2; unfold get_types, Ge, Lt; intros l H; discriminate).
@@ -68,27 +69,27 @@ Section PROM.
     - constructor; [|constructor; [|constructor; [apply types_conj_free | constructor]]].
       + intros a b [Ht Ha]. subst d1. unfold Ge, classify, col_is, qualifier_ok. cbn. rewrite Ha, Ht. reflexivity.
       + intros a b [Ht Ha]. subst d2. unfold Lt, classify, col_is, qualifier_ok. cbn. rewrite Ha, Ht. reflexivity.
-    - left. destruct Hwin as [H1 H2 H3 _].
+    - left. destruct Hwin as [H1 H2 H3 _]. specialize (H3 Hraw).
       apply (bounded_data info c W _ (c_from_ns c) (c_to_ns c + 1000000)); [exact H1 | lia | lia | exact Hi|].
       unfold bounds. cbn [sc_conj flat_map]. rewrite types_bounds. subst d1 d2. reflexivity.
   Qed.
   (* the metrics_15s skeleton of InitDownsamplePlanner *)
   Lemma prom_data_own t cols :
     ds = true -> info t = data_typed ->
-    Forall Q (own_scan (and_where [Gt (Id "samples.timestamp_ns") (IntV (c_from_ns c));
+    Forall Q (own_scan (and_where [Ge (Id "samples.timestamp_ns") (IntV (c_from_ns c));
                                     Le (Id "samples.timestamp_ns") (IntV (c_to_ns c)); get_types c]
                           (set_from (SimpleCol t "samples") (set_cols cols empty_select)))).
   Proof.
     intros Hds Hi. unfold and_where, SimpleCol. fields_all. unfold And. rewrite conjs_and.
-    set (d1 := Gt (Id "samples.timestamp_ns") (IntV (c_from_ns c))).
+    set (d1 := Ge (Id "samples.timestamp_ns") (IntV (c_from_ns c))).
     set (d2 := Le (Id "samples.timestamp_ns") (IntV (c_to_ns c))).
-    cbn [flat_map]. rewrite !conjs_other by (subst d1 d2; unfold get_types, Gt, Le; intros l H; discriminate).
+    cbn [flat_map]. rewrite !conjs_other by (subst d1 d2; unfold get_types, Ge, Le; intros l H; discriminate).
     cbn [app]. constructor; [|constructor]. split.
     - constructor; [|constructor; [|constructor; [apply types_conj_free | constructor]]].
-      + intros a b [Ht Ha]. subst d1. unfold Gt, classify, col_is, qualifier_ok. cbn. rewrite Ha, Ht. reflexivity.
+      + intros a b [Ht Ha]. subst d1. unfold Ge, classify, col_is, qualifier_ok. cbn. rewrite Ha, Ht. reflexivity.
       + intros a b [Ht Ha]. subst d2. unfold Le, classify, col_is, qualifier_ok. cbn. rewrite Ha, Ht. reflexivity.
     - left. destruct Hwin as [H1 H2 H3 H4]. specialize (H4 Hds).
-      apply (bounded_data info c W _ (c_from_ns c + 1) (c_to_ns c + 1)); [exact H1 | lia | lia | exact Hi|].
+      apply (bounded_data info c W _ (c_from_ns c) (c_to_ns c + 1)); [exact H1 | lia | lia | exact Hi|].
       unfold bounds. cbn [sc_conj flat_map]. rewrite types_bounds. subst d1 d2. reflexivity.
   Qed.
 
@@ -105,12 +106,12 @@ Section PROM.
     apply good_set_limit; [exact H | apply egood_nil; reflexivity].
   Qed.
 
-  Lemma init_clickhouse_good : good (init_clickhouse c).
+  Lemma init_clickhouse_good : raw = true -> good (init_clickhouse c).
   Proof.
-    unfold init_clickhouse. apply with_limit_good.
+    intros Hraw. unfold init_clickhouse. apply with_limit_good.
     apply good_set_orderby; [|repeat constructor; apply egood_nil; reflexivity].
     apply good_base; try reflexivity.
-    - apply prom_raw_own. apply Htab.
+    - apply prom_raw_own; [exact Hraw | apply Htab].
     - apply exprs_parts. unfold and_where, SimpleCol, ts_ms_col. constructor; fields_all; cbn [ScansPlanProofs.ogood];
         repeat constructor; apply egood_nil; reflexivity.
   Qed.
@@ -183,12 +184,12 @@ Section PROM.
     constructor; [apply egood_nil; reflexivity | constructor].
   Qed.
 
-  Lemma transpile_good h ms : good (transpile_label_matchers re_full h c ms).
+  Lemma transpile_good h ms : raw = true -> good (transpile_label_matchers re_full h c ms).
   Proof.
-    unfold transpile_label_matchers.
+    intros Hraw. unfold transpile_label_matchers.
     assert (H : good (and_where [In (Id "samples.fingerprint") [WRef "fp_sel" (fingerprints_query re_full c ms)]]
                        (add_withs [("fp_sel"%string, fingerprints_query re_full c ms)] (init_clickhouse c)))).
-    { apply fp_restrict_good; [apply neutral_in_fp1 | apply init_clickhouse_good | apply fingerprints_query_good]. }
+    { apply fp_restrict_good; [apply neutral_in_fp1 | apply init_clickhouse_good, Hraw | apply fingerprints_query_good]. }
     destruct (Z.eqb (h_step h) 0); [exact H | apply process_hints_good, H].
   Qed.
 
@@ -257,23 +258,33 @@ Proof.
       (etransitivity; [exact (table_info_db db n eq_refl) | reflexivity]) end.
 Qed.
 
-(* the window of a Select: rows with Start < timestamp <= End (milliseconds, as nanoseconds), metric samples *)
+(* the window of a Select: rows with Start <= timestamp <= End (milliseconds, as nanoseconds), metric samples *)
 Definition prom_win (h : hints) : window :=
-  {| w_from := h_start h * 1000000 + 1; w_to := h_end h * 1000000 + 1;
+  {| w_from := h_start h * 1000000; w_to := h_end h * 1000000 + 1;
      w_lo_min := h_start h * 1000000; w_hi_max := h_end h * 1000000 + 999999; w_type := 2 |}.
 (* the window of the raw path alone: exactly the closed millisecond window [Start, End], in nanoseconds *)
 Definition prom_raw_win (h : hints) : window :=
   {| w_from := h_start h * 1000000; w_to := h_end h * 1000000 + 1000000;
      w_lo_min := h_start h * 1000000; w_hi_max := h_end h * 1000000 + 999999; w_type := 2 |}.
-Lemma prom_win_ok cluster db h : pwin_ok true (prom_ctx cluster db h) (prom_win h).
+(* the window of the down-sampled path alone: exactly Start <= timestamp_ns <= End (rows of metrics_15s are stamped on
+   15-second boundaries, so this is the closed millisecond window for them) *)
+Definition prom_ds_win (h : hints) : window :=
+  {| w_from := h_start h * 1000000; w_to := h_end h * 1000000 + 1;
+     w_lo_min := h_start h * 1000000; w_hi_max := h_end h * 1000000; w_type := 2 |}.
+Lemma prom_win_ok cluster db h : pwin_ok true true (prom_ctx cluster db h) (prom_win h).
 Proof.
   constructor; unfold prom_win, prom_ctx; destruct (prom_tables cluster db) as [[gin spl] m15];
     cbn [w_type w_from w_to w_lo_min w_hi_max c_from_ns c_to_ns api_type c_type]; try reflexivity; lia.
 Qed.
-Lemma prom_raw_win_ok cluster db h : pwin_ok false (prom_ctx cluster db h) (prom_raw_win h).
+Lemma prom_raw_win_ok cluster db h : pwin_ok true false (prom_ctx cluster db h) (prom_raw_win h).
 Proof.
   constructor; unfold prom_raw_win, prom_ctx; destruct (prom_tables cluster db) as [[gin spl] m15];
-    cbn [w_type w_from w_to w_lo_min w_hi_max c_from_ns c_to_ns api_type c_type]; try reflexivity; try lia.
+    cbn [w_type w_from w_to w_lo_min w_hi_max c_from_ns c_to_ns api_type c_type]; try reflexivity; try lia; try discriminate.
+Qed.
+Lemma prom_ds_win_ok cluster db h : pwin_ok false true (prom_ctx cluster db h) (prom_ds_win h).
+Proof.
+  constructor; unfold prom_ds_win, prom_ctx; destruct (prom_tables cluster db) as [[gin spl] m15];
+    cbn [w_type w_from w_to w_lo_min w_hi_max c_from_ns c_to_ns api_type c_type]; try reflexivity; try lia; try discriminate.
 Qed.
 
 Lemma unQ info W q : good (Q info W false) q -> Forall (scan_bounded info W) (scans q).
@@ -282,14 +293,14 @@ Proof.
   intros sc [H|[H _]]; [exact H | discriminate H].
 Qed.
 
-(* every Select, raw or down-sampled: every row with Start < t <= End is read, nothing outside [Start, End + 1 ms) *)
+(* every Select, raw or down-sampled: every row with Start <= t <= End is read, nothing outside [Start, End + 1 ms) *)
 Theorem prom_select_scans_bounded re_full cluster db h ms :
   Forall (scan_bounded table_info (prom_win h)) (scans (fst (querier_transpile re_full cluster db h ms))).
 Proof.
   unfold querier_transpile.
   pose proof (prom_ctx_tables cluster db h) as Ht. pose proof (prom_win_ok cluster db h) as Hw.
   set (c := prom_ctx cluster db h) in *. apply unQ.
-  destruct (use_raw_data h); cbn [fst]; [apply (transpile_good _ _ _ true) | apply (transpile_downsample_good _ _ _ true)]; auto.
+  destruct (use_raw_data h); cbn [fst]; [apply (transpile_good _ _ _ true true) | apply (transpile_downsample_good _ _ _ true true)]; auto.
 Qed.
 
 (* a Select planned on the raw samples reads exactly the closed millisecond window [Start, End] *)
@@ -298,22 +309,23 @@ Theorem prom_raw_select_scans_exact re_full cluster db h ms :
   Forall (scan_bounded table_info (prom_raw_win h)) (scans (fst (querier_transpile re_full cluster db h ms))).
 Proof.
   intros Hr. unfold querier_transpile. rewrite Hr. cbn [fst].
-  apply unQ. apply (transpile_good _ _ _ false); [apply prom_ctx_tables | apply prom_raw_win_ok].
+  apply unQ. apply (transpile_good _ _ _ true false); [apply prom_ctx_tables | apply prom_raw_win_ok | reflexivity].
 Qed.
 
-(* the down-sampled path leaves out the rows stamped exactly Start (and the last millisecond after End):
-   against the closed window its lower bound is too tight *)
+(* a Select planned on the 15-second roll-up reads exactly Start <= timestamp_ns <= End (fix 24e9bdc: the lower bound was
+   exclusive and left out the row stamped exactly Start) *)
+Theorem prom_downsample_select_scans_exact re_full cluster db h ms :
+  use_raw_data h = false ->
+  Forall (scan_bounded table_info (prom_ds_win h)) (scans (fst (querier_transpile re_full cluster db h ms))).
+Proof.
+  intros Hr. unfold querier_transpile. rewrite Hr. cbn [fst].
+  apply unQ. apply (transpile_downsample_good _ _ _ false true); [apply prom_ctx_tables | apply prom_ds_win_ok | reflexivity].
+Qed.
+
 Definition ds_hints : hints := {| h_start := 1704888000000; h_end := 1704891600000; h_step := 15000; h_func := ""; h_range := 0 |}.
 Definition raw_hints : hints := {| h_start := 1704888000001; h_end := 1704891600000; h_step := 5000; h_func := "rate"; h_range := 60000 |}.
 Definition m_up : matcher := {| m_name := "__name__"; m_op := MEq; m_val := "up" |}.
 Definition m_re : matcher := {| m_name := "job"; m_op := MRe; m_val := ".*" |}.
-Lemma prom_downsample_start_exclusive :
-  use_raw_data ds_hints = false /\
-  ~ Forall (scan_bounded table_info (prom_raw_win ds_hints))
-           (scans (fst (querier_transpile (fun _ _ => true) false "qryn" ds_hints [m_up; m_re]))).
-Proof.
-  split; [reflexivity|]. intros H. apply every_scan_bounded_b_complete in H. vm_compute in H. discriminate H.
-Qed.
 Lemma prom_examples :
   use_raw_data raw_hints = true /\ use_raw_data ds_hints = false /\
   Nat.leb 5 (List.length (scans (fst (querier_transpile (fun _ _ => true) true "qryn" raw_hints [m_up; m_re])))) = true /\
@@ -322,11 +334,11 @@ Proof. repeat split; vm_compute; reflexivity. Qed.
 
 (* for any context with the schema's table classes, both transpilers, any hints *)
 Theorem prom_transpilers_scans_bounded info c W re_full h ms :
-  ctx_tables info c -> pwin_ok true c W ->
+  ctx_tables info c -> pwin_ok true true c W ->
   Forall (scan_bounded info W) (scans (transpile_label_matchers re_full h c ms)) /\
   Forall (scan_bounded info W) (scans (transpile_label_matchers_downsample re_full h c ms)).
 Proof.
-  intros Ht Hw. split; apply unQ; [apply (transpile_good _ _ _ true) | apply (transpile_downsample_good _ _ _ true)]; auto.
+  intros Ht Hw. split; apply unQ; [apply (transpile_good _ _ _ true true) | apply (transpile_downsample_good _ _ _ true true)]; auto.
 Qed.
 
 (* ------------------------------------------------------------------ labelsGetter.getFetchRequest *)
